@@ -192,6 +192,17 @@ def decide(run, ob, family, op, params, ins, spec, k=10, timeout=60, drop=(), mo
     r = solvers.solve(e.text(pins + [f"(assert {spec_smt})"]), timeout=timeout)
     ob.queries += 1
     ob.solver_s += r.time_s
+    if r.status == "unsat" and d["honest_verify"]:
+        # the honest run is accepted by the real checker, satisfies every extracted row exactly (checked above),
+        # and the solver says its (inputs, outputs) contradict the specification: is it the system or the spec
+        # pins that are inconsistent? decide the system alone at the honest point first.
+        r0 = solvers.solve(e.text(pins), timeout=timeout)
+        ob.queries += 1
+        if r0.status == "sat":
+            io = {c: hex(honest.get(system.cls(c), system.const.get(system.cls(c), 0))) for c in system.ins + system.outs}
+            ob.key = ob.key + ":honest-output-violates-spec"
+            path = run.write_replay(ob, dict(kind="honest-output", cx=cx_args(family, op, params, ins, k), instance=io))
+            return ob.set(VIOLATION, f"{op} {pstr(params)}: the honest run of the real chip on inputs {ins} is accepted with instance {io}, which violates the specification", solver=r.solver, replay=path)
     if r.status != "sat":
         return ob.set(INCONCLUSIVE, f"vacuity twin (honest assignment satisfies encoding and spec) came back {r.status}: {r.raw[:200]}")
     ob.vacuity = True
